@@ -721,7 +721,7 @@ def run(run):
                 'histories exhaustively plus seeded longer ones, each executed'
                 ' with server barriers; plus %d two-thread concurrent runs '
                 'under line-level yield injection. Distinct = the history.'
-                % (6 if thorough else 4, 300 if thorough else 24))
+                % (6 if thorough else 4, 1600 if thorough else 32))
     run.assumptions = ['transport errors (OSError/EOFError/ValueError on a '
                        'closed file) reported under concurrent disconnect are '
                        'legitimate outcomes of racing calls']
@@ -729,7 +729,7 @@ def run(run):
     acts = sorted(set(ACTIONS))
     plan = [(a,) for a in acts] + [(a, b) for a in acts for b in acts]
     maxlen = 6 if thorough else 4
-    for _ in range(900 if thorough else 90):
+    for _ in range(3000 if thorough else 90):
         plan.append(tuple(rng.choice(ACTIONS)
                           for _ in range(rng.randrange(3, maxlen + 1))))
     for i, actions in enumerate(plan):
@@ -759,7 +759,7 @@ def run(run):
         run.case(('gap', i, variant))
         if err:
             run.inconclusive_because('hand-over gap %d: %s' % (i, err))
-    for i in range(300 if thorough else 24):
+    for i in range(1600 if thorough else 32):
         if not run.mine(i):
             continue
         err = None
